@@ -105,9 +105,9 @@ type Opts struct {
 	Closures   bool
 	Floats     bool
 	Recursion  bool
-	MaxDepth   int // expression depth
-	MaxStmts   int // statements per body
-	LoopBound  int // max iterations of generated loops
+	MaxDepth   int  // expression depth
+	MaxStmts   int  // statements per body
+	LoopBound  int  // max iterations of generated loops
 	Purity     bool // generate only side-effect free functions
 	NoErrors   bool // avoid the operations that may fail at run time (/, %, indexing by computed values)
 	Faults     int  // number of deliberately faulty expressions to plant (at most)
